@@ -1,5 +1,6 @@
 """C08 - call resolution: facts first, exact arity, load order, late binding."""
 import itertools
+import os
 
 from .. import impl
 from ..diff import compile_cached
@@ -9,7 +10,7 @@ from ..terms import A, C, F, V, call, conj, TRUE, CUT, show_program, show_term
 
 ID = 'C08'
 LEVEL = 'model_checking'
-RULE = ('every history of depth <= D over 25 events (load of a self-recursive predicate S7 whose base case comes from another script S8 or from a dynamic fact; 17 + start / step / close of a call p(X) that stays suspended across the other events and must keep the resolution it had when it was made), from the empty engine and from 4 non-initial states (combined definitions, a Python predicate plus a script, facts between two loads, the recursive script), plus a 12-event core one step deeper: register_function for p with inferred / explicit (p/2) / variadic '
+RULE = ('every history of depth <= D over 25 events (load of a self-recursive predicate S7 whose base case comes from another script S8 or from a dynamic fact; 17 + start / step / close of a call p(X) that stays suspended across the other events and must keep the resolution it had when it was made), from the empty engine and from 4 non-initial states (combined definitions, a Python predicate plus a script, facts between two loads, the recursive script), plus a 12-event core one step deeper, plus the full alphabet from the empty engine with every script loaded through load_script_from_file from ONE path that is rewritten before each load: register_function for p with inferred / explicit (p/2) / variadic '
         'arity and for q/1; load of script S1 (p/1 facts), S2 (p/1 with a cut in its first clause), S3 (p/2 and q(X) :- '
         'p(X)), S6 (names that collide with context keys: once_1/0, once_1/1, p_n/1, call_n/0, foo_1/0 next to foo/1) each '
         'with overwrite on and off; load of a text that is not Python (S4) and of a text that defines p_1 and q_1 and then '
@@ -115,6 +116,20 @@ def py_model(name, n):
     return d
 
 
+# how scripts reach the engine: load_script_from_string, or load_script_from_file with every script
+# of the whole shard written to ONE path in turn (what a file holds when it is loaded is what counts)
+LOAD_PATH = None
+
+
+def _load(yp, text, overwrite):
+    if LOAD_PATH is None:
+        yp.load_script_from_string(text, fn=impl.SCRIPT_FN, overwrite=overwrite)
+    else:
+        with open(LOAD_PATH, 'w') as f:
+            f.write(text)
+        yp.load_script_from_file(LOAD_PATH, overwrite=overwrite)
+
+
 def do_impl(yp, ev, texts):
     if ev[0] == 'reg':
         fn = py_pred(yp, ev[1], ev[2])
@@ -123,10 +138,10 @@ def do_impl(yp, ev, texts):
         else:
             yp.register_function(ev[1], fn, arity=ev[3])
     elif ev[0] == 'load':
-        yp.load_script_from_string(texts[ev[1]], fn=impl.SCRIPT_FN, overwrite=ev[2])
+        _load(yp, texts[ev[1]], ev[2])
     elif ev[0] == 'badload':
         try:
-            yp.load_script_from_string(S4_PY if ev[1] == 'S4' else S5_PY, fn=impl.SCRIPT_FN, overwrite=True)
+            _load(yp, S4_PY if ev[1] == 'S4' else S5_PY, True)
         except Exception:  # noqa: BLE001 - a failing load is expected to raise
             return 'raised'
         return 'did-not-raise'
@@ -297,10 +312,27 @@ def plan(tier):
     for pi in range(len(PREFIXES)):
         sh += [(d, k, n, pi, 'all') for k in range(n)]
     sh += [(d + 1, k, 2 * n, 0, 'core') for k in range(2 * n)]
+    sh += [(d, k, n, 0, 'all-file') for k in range(n)]
     return sh
 
 
 def run_shard(spec):
+    global LOAD_PATH
+    if spec[4] != 'all-file':
+        LOAD_PATH = None
+        return _run_shard(spec)
+    import shutil
+    import tempfile
+    d = tempfile.mkdtemp(prefix='verif-c08-')
+    try:
+        LOAD_PATH = os.path.join(d, 'script.py')
+        return _run_shard(spec[:4] + ('all',), via='file')
+    finally:
+        LOAD_PATH = None
+        shutil.rmtree(d, ignore_errors=True)
+
+
+def _run_shard(spec, via=None):
     depth, k, n, pi, alpha = spec
     prefix = PREFIXES[pi]
     alphabet = list(range(len(EVENTS))) if alpha == 'all' else CORE_EVENTS
@@ -328,7 +360,7 @@ def run_shard(spec):
             acc.skipped[r[1]] += 1
             continue
         if r[0] == 'violation':
-            acc.violation(r[1], (len(hist), pi, idx), {'hist': list(hist)}, r[2], key=str(list(hist)))
+            acc.violation(('file-loads:' if via else '') + r[1], (len(hist), pi, idx), {'hist': list(hist), 'via': via}, r[2], key=(via or '') + str(list(hist)))
             continue
         _, states, steps, nontrivial = r
         acc.n['transitions'] += steps
@@ -342,6 +374,18 @@ def run_shard(spec):
 
 
 def replay(case):
+    global LOAD_PATH
+    if case.get('via'):
+        import shutil
+        import tempfile
+        d = tempfile.mkdtemp(prefix='verif-c08-')
+        try:
+            LOAD_PATH = os.path.join(d, 'script.py')
+            r = run_history(tuple(case['hist']), compile_scripts())
+        finally:
+            LOAD_PATH = None
+            shutil.rmtree(d, ignore_errors=True)
+        return [('file-loads:' + r[1], r[2])] if r[0] == 'violation' else []
     r = run_history(tuple(case['hist']), compile_scripts())
     if r[0] == 'violation':
         return [(r[1], r[2])]
